@@ -172,7 +172,7 @@ def ingestion_feed(ctx, f):
 def r4(ctx):
     """ingestion alignment in the two MCMC models: whatever enumerates the rows (zip of columns, index loop, generator
     pipeline), the four values handed to _update come from the same row of observations / sample_ids / treatment_ids[:, 0] /
-    treatment_ids[:, 1], and only rows whose observation_mask entry is set are ingested"""
+    treatment_ids[:, 1], and no row is dropped by any test other than its observation_mask entry"""
     for q in ("models.sparse_combo.SparseDrugCombo._add_observations", "models.sparse_combo_interaction.SparseDrugComboInteraction._add_observations"):
         f = ctx.fn(q)
         data = [p for p in f.params if p != "self"][0]
@@ -195,8 +195,9 @@ def r4(ctx):
             sels.add(fl.selector)
         if len(sels) > 1:
             problems.append(f"the values of one row come from different row selections {sorted(map(str, sels))}")
-        if not mask_filters or not all(pol for _, pol in mask_filters):
-            problems.append("rows are not restricted to those whose observation_mask entry is set")
+        # (a per-row observation_mask test is optional: add_observations refuses partially observed data before delegating - R2)
+        if mask_filters and not all(pol for _, pol in mask_filters):
+            problems.append("rows whose observation_mask entry is set are skipped (the test is inverted)")
         extra = [(fl, pol) for fl, pol in filters if (fl, pol) not in mask_filters]
         if extra:
             problems.append(f"rows are additionally filtered by {[repr(fl) for fl, _ in extra]}")
